@@ -18,8 +18,8 @@ open Mqtt.Spec.Broker (Accepts SOut)
 
 theorem spec_setConn_frame (s : Spec.Broker.S) (k : Spec.Broker.Conn) :
     (Spec.Broker.setConn s k).held = s.held ∧ (Spec.Broker.setConn s k).rets = s.rets ∧
-    (Spec.Broker.setConn s k).stored = s.stored ∧ (Spec.Broker.setConn s k).overlap = s.overlap :=
-  ⟨rfl, rfl, rfl, rfl⟩
+    (Spec.Broker.setConn s k).stored = s.stored :=
+  ⟨rfl, rfl, rfl⟩
 
 /-- replacing the inbound QoS 2 queue of a live connection's session by `q`
 (model) and its image (reference broker) -/
@@ -36,7 +36,7 @@ theorem R_setQueue {b : B} {s : Spec.Broker.S} (h : R b s) {c : Nat} {cn : Conn}
     (Mqtt.Proofs.BrokerQos.BInv.setSess h.qinv (s := σ) hσ hq)
     rfl rfl rfl rfl rfl rfl h.held h.heldGood h.owners (fun _ _ => rfl) rfl rfl
     (spec_setConn_nodup s _ h.sconns)
-    (spec_getConn_setConn_if s _ c (show k.id = c from Mqtt.Proofs.BrokerQos.spec_getConn_id hk)) rfl ?_
+    (spec_getConn_setConn_if s _ c (show k.id = c from Mqtt.Proofs.BrokerQos.spec_getConn_id hk)) ?_
   exact ⟨hrel.cid, hrel.clean, hrel.willFlag, hrel.will, hrel.willOk, rfl, hqok, hrel.topics, hrel.store⟩
 
 theorem mem_q2Wait {q : List QEntry} {p : Pub} {e : QEntry} (h : e ∈ q2Wait q p) : e ∈ q ∨ e.msg = p := by
